@@ -238,18 +238,27 @@ static void run_cfg(Report & R, size_t Bd, bool full_basis)
             check_all(f, "onehot", static_cast<long>(p));
             ++R.states;
         }
-        // --- three non-affine full patterns
-        for (int pat = 0; pat < 3; ++pat) {
+        // --- four non-affine full patterns
+        for (int pat = 0; pat < 4; ++pat) {
             for (size_t a = 0; a < cells; ++a)
                 for (size_t j = 0; j < M; ++j) {
                     double val;
                     if (pat == 0) val = double((a + 1) * (a + 1)) + double(j);
                     else if (pat == 1) val = ((a & 1) ? -1.0 : 1.0) * std::ldexp(1.0 + double(j) * 0.25, ((a / 2) & 1) ? 20 : -20) * double(1 + (a % 3));
-                    else val = 1000.3 * double(j) + double(a) / 3.0 + 0.1;  // not representable in single precision
+                    else if (pat == 2) val = 1000.3 * double(j) + double(a) / 3.0 + 0.1;  // not representable in single precision
+                    else {
+                        // "arbitrary finite stored values": neighbours of opposite sign along every axis, each close to the
+                        // largest finite value of the narrower of the two scalar types. The interpolant is finite (weights
+                        // are a convex combination); a formulation that differences neighbours overflows
+                        size_t par = 0;
+                        for (size_t k = 0; k < N; ++k) par += coords[a][k];
+                        const double big = 0.9 * std::min(static_cast<double>(std::numeric_limits<S>::max()), static_cast<double>(std::numeric_limits<C>::max()));
+                        val = ((par & 1) ? -1.0 : 1.0) * big * (1.0 - 0.01 * double(j));
+                    }
                     data[a * M + j] = static_cast<S>(val);
                 }
             auto f = build();
-            check_all(f, pat == 0 ? "squares" : pat == 1 ? "altsign_2^+-20" : "components", -1);
+            check_all(f, pat == 0 ? "squares" : pat == 1 ? "altsign_2^+-20" : pat == 2 ? "components" : "altsign_near_max", -1);
             ++R.states;
         }
         ++R.nontrivial;
